@@ -66,6 +66,11 @@ func genC11(g *Gen, tier string) *Program {
 			case 1, 2, 3, 4:
 				kind := []string{"counter", "gauge", "timer", "hist"}[g.Intn(4)]
 				op := Op{K: kind, S: scopes[g.Intn(len(scopes))], M: nextM, Name: kind[:1] + pick(g, "0", "1")}
+				if (kind == "counter" || kind == "timer") && g.Bool(15) {
+					// a name that spells out a subscope: "a.c0" on a scope is the same
+					// full name as "c0" on its subscope "a" - one identity, two scopes
+					op.Name = pick(g, "a", "b", "c") + "." + op.Name
+				}
 				if kind == "gauge" {
 					op.Name = "g" + string(rune('A'+t))
 				}
@@ -108,6 +113,21 @@ func genC11(g *Gen, tier string) *Program {
 			}
 		}
 		p.Tasks = append(p.Tasks, ops)
+	}
+	if g.Bool(10) {
+		// two different tag sets that the documented key format spells the same way
+		// (a delimiter inside a value or key): two metrics, one snapshot key
+		twins := [][2]map[string]string{
+			{{"a": "1,b=2"}, {"a": "1", "b": "2"}},
+			{{"a=1,b": "2"}, {"a": "1", "b": "2"}},
+			{{"k": "v,m=w"}, {"k": "v", "m": "w"}},
+		}
+		tw := twins[g.Intn(len(twins))]
+		for i := 0; i < 2; i++ {
+			p.Tasks = append(p.Tasks, []Op{{K: "tag", S: 0, D: 1, Tags: tw[i]},
+				{K: "counter", S: 1, M: 1, Name: "c0"}, {K: "inc", M: 1, I: int64(1 + i)},
+				{K: "timer", S: 1, M: 2, Name: "t0"}, {K: "rec", M: 2, I: int64(5000 + i)}})
+		}
 	}
 	if g.Bool(60) {
 		var ops []Op
@@ -270,6 +290,25 @@ func firstHistSpec(ops []*OpRec, ci *closeInfo, key string) (*BucketSpec, bool) 
 func compareSnap(kind string, got map[string]SnapEntry, want map[string]*SnapEntry, ambig map[string]bool, eq func(g SnapEntry, w *SnapEntry) string) []Violation {
 	var out []Violation
 	seen := map[string]bool{}
+	// different metrics whose documented snapshot key is the same string (a
+	// delimiter inside a name, tag key or tag value): the snapshot has one map
+	// slot for them. Every discrepancy on such a metric is reported as that.
+	byDoc := map[string][]string{}
+	for k, w := range want {
+		doc := tally.KeyForPrefixedStringMap(w.Name, w.Tags)
+		byDoc[doc] = append(byDoc[doc], k)
+	}
+	shared := func(k string, w *SnapEntry) *SnapEntry {
+		for _, o := range byDoc[tally.KeyForPrefixedStringMap(w.Name, w.Tags)] {
+			if o != k {
+				return want[o]
+			}
+		}
+		return nil
+	}
+	collision := func(w, o *SnapEntry, what string) Violation {
+		return vf("snapshot-key-collision", "%s %q %v and %s %q %v share the snapshot key %q: %s", kind, w.Name, w.Tags, kind, o.Name, o.Tags, tally.KeyForPrefixedStringMap(w.Name, w.Tags), what)
+	}
 	for mapKey, g := range got {
 		k := idKey(g.Name, g.Tags)
 		if wantKey := tally.KeyForPrefixedStringMap(g.Name, g.Tags); wantKey != mapKey {
@@ -288,11 +327,19 @@ func compareSnap(kind string, got map[string]SnapEntry, want map[string]*SnapEnt
 			continue
 		}
 		if msg := eq(g, w); msg != "" {
+			if o := shared(k, w); o != nil {
+				out = append(out, collision(w, o, msg))
+				continue
+			}
 			out = append(out, vf("snapshot-value", "%s %q %v: %s", kind, g.Name, g.Tags, msg))
 		}
 	}
 	for k, w := range want {
 		if !seen[k] && !ambig[k] {
+			if o := shared(k, w); o != nil {
+				out = append(out, collision(w, o, "the first is not in the snapshot"))
+				continue
+			}
 			out = append(out, vf("snapshot-missing", "%s %q %v was created but is not in the snapshot", kind, w.Name, w.Tags))
 		}
 	}
@@ -387,10 +434,14 @@ func checkC11(env *Env) []Violation {
 				env.Probes.inc("concurrent_snapshots")
 				lo := modelSnapshot(env, completedBefore(ops, r.Inv), ci, inf)
 				hi := modelSnapshot(env, ops, ci, r.Ret)
+				docs := map[string]int{}
+				for _, w := range hi.counters {
+					docs[tally.KeyForPrefixedStringMap(w.Name, w.Tags)]++
+				}
 				for _, g := range sc.Counters {
 					k := idKey(g.Name, g.Tags)
-					if hi.ambig[k] {
-						continue
+					if hi.ambig[k] || docs[tally.KeyForPrefixedStringMap(g.Name, g.Tags)] > 1 {
+						continue // shared snapshot key: reported by the quiescent comparison (D20)
 					}
 					h := hi.counters[k]
 					if h == nil {
